@@ -320,6 +320,8 @@ def letters(clsname, key, default, ktype, salt=()):
         raw = '%.2E' % (v * 0.5)
         out.append(('sciE', raw, float(raw)))
         out.append(('intlit', '3', 3.0))
+        out.append(('zero', '0', 0.0))          # a legal value that is false in a truth test
+        out.append(('zerof', '0.0', 0.0))
         if isnum and default < 0:
             out.append(('neg', '-2.5', -2.5))
     if ktype == 'int':
@@ -327,6 +329,7 @@ def letters(clsname, key, default, ktype, salt=()):
             out.append(('dflt', repr(int(default)), int(default)))
         n = (int(default) if isnum else 1) + 2
         out.append(('int', str(n), n))
+        out.append(('zero', '0', 0))
     if ktype == 'bool':
         out.extend(BOOL_LETTERS)
     if ktype in ('list_float', 'float|list'):
